@@ -56,7 +56,7 @@ func boundsFor(prop, tier string) map[string]interface{} {
 		b["schedule"] = "canonical run-to-block schedule; lazy-start schedule (quit already signalled when the receive loop starts; a burst of " + pick("2", "3") + " events read back to back); timer-driven schedule (quit while an event is in flight)"
 		b["zone"] = "UTC / any fixed offset; system date-time also under the two-interval zone view (real-zone twin)"
 	case "C11":
-		b["datagrams"] = "seam: k <= " + pick("2", "4") + " of length 0..2048; socket level: k <= " + pick("2", "3") + " of length 0..96 arriving within the timeout"
+		b["datagrams"] = "seam: k <= " + pick("2", "3") + " of length 0..2048; socket level: k <= " + pick("2", "3") + " of length 0..96 arriving within the timeout"
 		b["configuration"] = "one configured controller with symbolic serial number; broadcast address set (any port) or not"
 	case "C12":
 		b["string_length_n"] = pick("0..14", "0..32")
